@@ -2,7 +2,6 @@ package lazy
 
 import (
 	"fmt"
-	"hash/fnv"
 	"sync"
 
 	"github.com/coregx/coregex/nfa"
@@ -388,23 +387,22 @@ func hashStateKey(nfaStates []nfa.StateID, isFromWord bool, isMatch bool, lookHa
 		return StateKey(flags)
 	}
 
-	h := fnv.New64a()
-
-	// Include the flags in the hash FIRST to distinguish states
-	_, _ = h.Write([]byte{flags})
-
+	// FNV-1a, 64 bit, written out (hash/fnv allocates the hasher). The flags come
+	// first, then every StateID as 4 little-endian bytes.
+	const (
+		fnvOffset64 = 14695981039346656037
+		fnvPrime64  = 1099511628211
+	)
+	h := uint64(fnvOffset64)
+	h = (h ^ uint64(flags)) * fnvPrime64
 	for _, sid := range nfaStates {
-		// Write each StateID as 4 bytes (uint32)
-		// hash.Hash.Write never returns an error per documentation
-		_, _ = h.Write([]byte{
-			byte(sid),
-			byte(sid >> 8),
-			byte(sid >> 16),
-			byte(sid >> 24),
-		})
+		h = (h ^ uint64(byte(sid))) * fnvPrime64
+		h = (h ^ uint64(byte(sid>>8))) * fnvPrime64
+		h = (h ^ uint64(byte(sid>>16))) * fnvPrime64
+		h = (h ^ uint64(byte(sid>>24))) * fnvPrime64
 	}
 
-	return StateKey(h.Sum64())
+	return StateKey(h)
 }
 
 // sortStateIDs performs insertion sort on NFA state IDs.
